@@ -52,6 +52,9 @@ CHECKS['C18'] = dict(level='model_checking', design='1/C18',
 CHECKS['C11'] = dict(level='model_checking', design='1/C11',
      text='WebSocket::send and WebSocket::receive (with the real Socket_ read/write loops underneath) are executed symbolically over a system-call-level socket model: send output is deframed by a reference RFC 6455 deframer, receive input is produced by a reference framer (symbolic payload bytes and mask key, both roles, 1-3 fragments cut at every position, a ping in between), for payload lengths at every header-format boundary; hostile headers (every first byte, boundary lengths in the 7/16/64-bit formats incl. bit 31 and bit 63 set) truncated at every offset must yield no memory error and no negative length.',
      note='Bounds in evidence. Sockets = env/vsock.c (trusted). Sender mask key = the library RNG run concretely. Handshake: only the accept-key computation. Trusted: z3, engine IR semantics.')
+CHECKS['C09'] = dict(level='model_checking', design='1/C09',
+     text='HttpRequest::read (request line, readHeaders, Expect, readBody with Content-Length and chunked framing, target splitting, Url::decode, the ".." filter), Url::Url, Url::decode and HttpServer::serve(Socket) (dispatch, file responses, Range variants) are executed symbolically with the real Socket_ layer over a system-call-level socket model: every request target up to the stated length never yields a path containing ".."; complete requests hand over exactly the method, decoded path, query, case-insensitively addressed headers and body that were sent; the same streams cut at every byte offset terminate without memory errors.',
+     note='Bounds in evidence (targets: all bytes to length 2 quick / 3 thorough, 9-symbol alphabet to 4 / 6). Sockets, files and clock are environment models (env/vsock.c, env/vstdio.c, engine clock). Trusted: z3, engine IR semantics.')
 NA = {
 }
 ALL = ['C%02d' % i for i in range(1, 21)]
